@@ -1,7 +1,8 @@
 """C15 — the store stays well-formed and failed requests leave it untouched.
 
 Theorems: lean/Props/C15.lean (an error status decides on no update; reads change nothing),
-lean/Props/C15Inv.lean when present (well-formedness invariant).
+lean/Props/C15Inv.lean: the inductive well-formedness invariant (`c15_wellformed_always`) over every history of requests,
+under the hypothesis that the policy never grants `w` on the root (finding F15, exhibited as a theorem).
 Correspondence: request histories biased towards invalid requests against the real application and the
 model (status, store dump after every request).  Oracle independent of the model: a request answered with
 4xx/5xx leaves the API dump *and* the bytes of the collection tree unchanged (home creation aside); after every
@@ -11,7 +12,7 @@ and the offline verifier succeeds.
 import davsim
 from common import disk_snapshot
 
-PROP_FILES = ["Props/C15.lean"]
+PROP_FILES = ["Props/C15.lean", "Props/C15Inv.lean"]
 LEVEL = "proof"
 
 INVALID_BODIES = [
